@@ -22,6 +22,8 @@ ObsOf(run) == {[key |-> s.key, n |-> s.n,
                 tcs |-> {[inv |-> tc.inv, p |-> tc.p, k |-> tc.k, ks |-> ToSet(tc.ks), card |-> tc.card,
                           abs |-> tc.abs, ratio |-> tc.ratio, com |-> ToSet(tc.com)] : tc \in ToSet(s.tcs)}]
                : s \in ToSet(run.shapes)}
+\* the node constraint a shape opens with (the IRI stem printed by detect_minimal_iri): part of the shape, not of its presentation
+StemsOf(run) == {<<s.key, s.stem>> : s \in ToSet(run.shapes)}
 OA == ObsOf(Tr.a)
 OB == ObsOf(Tr.b)
 OC == ObsOf(Tr.c)
@@ -35,7 +37,7 @@ Clauses ==
   ELSE IF ~AllOk THEN {"SKIP.crashed"}
   ELSE CASE Tr.rel = "same" -> R!Same(Tr.prop, Tr.how, OA, OB)
          [] Tr.rel = "thr" -> R!Thr(OA, OB)
-         [] Tr.rel = "present" -> R!Present(OA, OB)
+         [] Tr.rel = "present" -> R!Present(OA, OB) \cup (IF StemsOf(Tr.a) # StemsOf(Tr.b) THEN {"C13.nodeconstraint"} ELSE {})
          [] Tr.rel = "relax" -> R!Relax(OA, OB)
          [] Tr.rel = "noopt" -> R!NoOpt(OA, OB)
          [] Tr.rel = "noexact" -> R!NoExact(OA, OB)
